@@ -1573,6 +1573,7 @@ func (f *File) AddRetract(vi VersionInterval, rationale string) error {
 
 	r := &Retract{
 		VersionInterval: vi,
+		Rationale:       rationale,
 	}
 	if vi.Low == vi.High {
 		r.Syntax = f.Syntax.addLine(nil, "retract", AutoQuote(vi.Low))
@@ -1585,6 +1586,7 @@ func (f *File) AddRetract(vi VersionInterval, rationale string) error {
 			r.Syntax.Comment().Before = append(r.Syntax.Comment().Before, com)
 		}
 	}
+	f.Retract = append(f.Retract, r)
 	return nil
 }
 
